@@ -188,12 +188,19 @@ def _apply(prog, eff, f, arg):
 def _receiver_alts(prog, eff, b, pos, x, kind, depth):
     """alternatives of a combinator's receiver as explicit aggregates: [(pos, agg, extra_facts)] or None"""
     x = deep_strip(x)
+    if x[0] == 'call' and len(x[2]) == 2 and canon(x[1]).split("::")[-1] in ("then_some", "then") and "bool" in canon(x[1]):
+        sub = _combinators(prog, eff, b, pos, x, depth + 1)
+        if len(sub) == 2 and all(deep_strip(a[1])[0] == 'agg' for a in sub):
+            return sub
     if x[0] == 'call' and len(canon(x[1]).split("::")) >= 2 and tuple(canon(x[1]).split("::")[-2:]) in _COMB:
         sub = _combinators(prog, eff, b, pos, x, depth + 1)
         if all(deep_strip(a[1])[0] == 'agg' and deep_strip(a[1])[2] in ('Some', 'None', 'Ok', 'Err') for a in sub):
             return sub
         return None
     alts = alternatives(b, pos, x)
+    if alts and not any(deep_strip(a[1])[0] == 'agg' for a in alts) and len(alts) > 1:
+        # an opaque fallible call whose OPERANDS are assigned on several paths (a loop-carried total): still one opaque value
+        alts = [(pos, x)]
     if len(alts) == 1 and deep_strip(alts[0][1])[0] != 'agg':
         xx = deep_strip(alts[0][1])
         okn, badn = ("Some", "None") if kind == "Option" else ("Ok", "Err")
